@@ -23,6 +23,19 @@ def _solver(ob, timeout_ms):
 def discharge(ob, z3_ms=10000, cvc5_s=30, use_cvc5=True, scratch=None):
     """Sets ob.status in {'proved','refuted','unknown'}, ob.backend, ob.time, ob.detail."""
     t0 = time.time()
+    # first attempt: quantifier-free hypotheses only (fewer hypotheses: a proof found this way is a proof)
+    from .exec import has_quant
+    qf = [h for h in ob.hyps if not has_quant(h)]
+    if len(qf) < len(ob.hyps) and not has_quant(ob.goal):
+        s0 = z3.Solver()
+        s0.set("timeout", min(2000, z3_ms))
+        for h in qf:
+            s0.add(h)
+        s0.add(VStr.distinct_axiom())
+        s0.add(z3.Not(ob.goal))
+        if s0.check() == z3.unsat:
+            ob.status, ob.backend, ob.time = "proved", "z3", time.time() - t0
+            return ob
     s = _solver(ob, z3_ms)
     try:
         r = s.check()
